@@ -441,6 +441,7 @@ type legStats struct {
 	Inconclusive int            `json:"inconclusive"`
 	Violating    int            `json:"violating_runs"`
 	SimSeconds   float64        `json:"simulated_seconds"`
+	simMs        int64          // summed as an integer: the total must not depend on the order in which runs finish
 	Steps        int            `json:"driver_steps"`
 	Stats        map[string]int `json:"counters"`
 	FirstSeed    uint64         `json:"first_seed"`
@@ -473,12 +474,27 @@ func cmdRun(args []string) int {
 			*budget, _ = strconv.Atoi(b)
 		}
 	}
+	// Quick tier: a fixed number of runs per leg (Leg.Quick), seeds
+	// base*1000003 + leg*100000007 + 0..n-1, so that the explored set, the
+	// evidence and what the check can detect are a function of VERIF_SEED and
+	// the tree only, not of how fast or how loaded the machine is (a fresh
+	// restore ran the first checks seven times slower than a warm sandbox).
+	// The wall clock only bounds it (quotaCap; reaching it is reported in the
+	// evidence). Thorough tier and an explicit -budget / VERIF_BUDGET_S: wall
+	// budget shared by weight; the thorough tier also never does less than
+	// the quick quota.
+	quota := false
+	budgetFromTier := *budget == 0
 	if *budget == 0 {
 		*budget = 45
 		if *tier == "thorough" {
 			*budget = 900
+		} else {
+			quota = true
 		}
 	}
+	const quotaCap = 20 * time.Minute
+	quotaCapped := false
 	t0 := time.Now()
 	wantRace := false
 	for _, l := range chk.Legs {
@@ -522,12 +538,26 @@ func cmdRun(args []string) int {
 	nontrivial := 0
 	evaluations := 0
 	var samples []json.RawMessage
+	var runLog *os.File // VERIF_RUNLOG=<file>: one line per run (debugging aid: compare two batches seed by seed)
+	if f := os.Getenv("VERIF_RUNLOG"); f != "" {
+		runLog, _ = os.Create(f)
+		defer runLog.Close()
+	}
 	for li := range chk.Legs {
 		leg := &chk.Legs[li]
 		ls := &legStats{Leg: leg.World, Race: leg.Race, Stats: map[string]int{}}
 		lstats = append(lstats, ls)
 		legBudget := time.Duration(*budget) * time.Second * time.Duration(leg.Weight) / time.Duration(totalW)
 		deadline := time.Now().Add(legBudget)
+		floor, limit := 0, *maxRuns
+		if quota {
+			deadline = t0.Add(quotaCap)
+			if limit == 0 || leg.Quick < limit {
+				limit = leg.Quick
+			}
+		} else if *tier == "thorough" && budgetFromTier {
+			floor = leg.Quick
+		}
 		var mu sync.Mutex
 		var wg sync.WaitGroup
 		next := uint64(0)
@@ -538,7 +568,11 @@ func cmdRun(args []string) int {
 				defer wg.Done()
 				for {
 					mu.Lock()
-					if time.Now().After(deadline) || (*maxRuns > 0 && int(next) >= *maxRuns) || len(troubles) > 0 {
+					late := time.Now().After(deadline)
+					if quota && late && int(next) < limit {
+						quotaCapped = true
+					}
+					if (late && int(next) >= floor) || (limit > 0 && int(next) >= limit) || len(troubles) > 0 {
 						mu.Unlock()
 						return
 					}
@@ -564,7 +598,11 @@ func cmdRun(args []string) int {
 						ls.LastSeed = seed
 					}
 					if o.res != nil {
-						ls.SimSeconds += float64(o.res.SimMs) / 1000
+						ls.simMs += o.res.SimMs
+						ls.SimSeconds = float64(ls.simMs) / 1000
+						if runLog != nil {
+							fmt.Fprintf(runLog, "%s race=%v seed=%d outcome=%s steps=%d sim_ms=%d sched=%s\n", leg.World, leg.Race, seed, o.res.Outcome, o.res.Steps, o.res.SimMs, o.res.SchedHash)
+						}
 						ls.Steps += o.res.Steps
 						for k, v := range o.res.Stats {
 							ls.Stats[k] += v
@@ -661,6 +699,15 @@ func cmdRun(args []string) int {
 		}
 	}
 	wall := time.Since(t0).Seconds()
+	runSelection := fmt.Sprintf("wall budget of %d s shared by the legs by weight", *budget)
+	if quota {
+		runSelection = "fixed quota of runs per leg (seeds base*1000003 + leg*100000007 + 0..n-1): machine-independent"
+		if quotaCapped {
+			runSelection += fmt.Sprintf("; NOT COMPLETED: stopped by the %v wall cap", quotaCap)
+		}
+	} else if *tier == "thorough" && budgetFromTier {
+		runSelection += ", and at least the quick tier's quota of runs per leg"
+	}
 	ev := map[string]interface{}{
 		"property_id": *prop,
 		"tier":        *tier,
@@ -677,6 +724,7 @@ func cmdRun(args []string) int {
 			"legs":                lstats,
 			"runs_per_hour":       float64(evaluations) / (wall - buildWall.Seconds() + 0.001) * 3600,
 			"build_wall_s":        buildWall.Seconds(),
+			"run_selection":       runSelection,
 			"schedule_control":    map[bool]string{true: "yields+network", false: "network-only (instrumented build failed)"}[bo.Yields],
 			"probes_required":     chk.Probes,
 			"probes_missing":      missing,
@@ -701,6 +749,9 @@ func cmdRun(args []string) int {
 	if exit == 0 && evaluations == 0 {
 		fmt.Fprintln(os.Stderr, "vcheck: no runs completed")
 		return 2
+	}
+	if quotaCapped {
+		fmt.Fprintf(os.Stderr, "vcheck: the quick quota was not completed within %v of wall time; the evidence says so\n", quotaCap)
 	}
 	fmt.Printf("vcheck: property=%s tier=%s runs=%d distinct_nontrivial=%d violations=%d wall=%.1fs (build %.1fs)\n", *prop, *tier, evaluations, nontrivial, unknown, wall, buildWall.Seconds())
 	return exit
